@@ -151,11 +151,36 @@ func genTable(g *Gen) []kmount {
 				m.Mp += "/" + nastyNames[g.Intn(len(nastyNames))]
 			}
 		}
+		related := false
+		if len(tbl) > 0 && g.Chance(1, 3) {
+			// a mount of the same file system as an earlier one, showing that one's root or a
+			// directory below it (a bind mount, a second subvolume mount): what the bind-source
+			// candidates are computed from.  Every third of them sits on "/" itself (a root
+			// file system on a subvolume).
+			o := tbl[g.Intn(len(tbl))]
+			related = true
+			m.Dev = o.Dev
+			m.Root = o.Root
+			if g.Chance(2, 3) {
+				sub := genKPath(g, 1)
+				if m.Root == "/" {
+					m.Root = sub
+				} else {
+					m.Root += sub
+				}
+			}
+			if g.Chance(1, 3) {
+				m.Mp = "/"
+			}
+			m.Fstype, m.Source = o.Fstype, o.Source
+		}
 		for k := g.Intn(4); k > 0; k-- {
 			m.Optional = append(m.Optional, g.Pick("shared:1", "master:2", "propagate_from:3", "unbindable", "tag", "a:b"))
 		}
-		m.Fstype = g.Pick("ext4", "tmpfs", "proc", "devtmpfs", "sysfs", "overlay", "overlay", "btrfs", "fuse.x", "devpts")
-		m.Source = g.Pick("/dev/sda1", "none", "tmpfs", "overlay", "/dev/mapper/my vol", "sp ace", "#hash", "devtmpfs")
+		if !related {
+			m.Fstype = g.Pick("ext4", "tmpfs", "proc", "devtmpfs", "sysfs", "overlay", "overlay", "btrfs", "fuse.x", "devpts")
+			m.Source = g.Pick("/dev/sda1", "none", "tmpfs", "overlay", "/dev/mapper/my vol", "sp ace", "#hash", "devtmpfs")
+		}
 		if m.Fstype == "overlay" {
 			keys := [][2]string{{"rw", noVal}, {"lowerdir", genOvlDir(g)}, {"upperdir", genOvlDir(g)},
 				{"workdir", genOvlDir(g)}, {"redirect_dir", "on"}, {"index", "off"}, {"xino", "off"}}
